@@ -538,6 +538,25 @@ def corruption_stream(rng: random.Random, tier: str, w: Work, scale: float = 1.0
     for name, data in bases[: (6 if tier == "quick" else 40)]:
         for desc, mut in ase.truncations(data, every=False):
             out.append((w.put(mut, "tr"), name + ":" + desc))
+    # a frame whose declared byte size ends INSIDE the header of one of its chunks (1..5 bytes into it), alone and with the chunk
+    # count raised by one: the bytes are all there, the frame's budget is not
+    for name, data in bases[: (8 if tier == "quick" else 60)]:
+        fields = list(ase.walk(data))
+        frames_ = [f for f in fields if f.name.endswith(".nbytes")]
+        chunks_ = [f for f in fields if f.name.startswith("chunk") and f.name.endswith(".size")]
+        for fi_, ff in enumerate(frames_):
+            fend = ff.offset + ase.get_field(data, ff)
+            cnt_new = next((f for f in fields if f.name == ff.name.replace("nbytes", "nchunks_new")), None)
+            cnt_old = next((f for f in fields if f.name == ff.name.replace("nbytes", "nchunks_old")), None)
+            for cf in chunks_:
+                if not (ff.offset < cf.offset < fend):
+                    continue
+                for k in (1, 3, 5):
+                    mut = ase.set_field(data, ff, cf.offset - ff.offset + k)
+                    out.append((w.put(mut, "fb"), "%s:%s ends %d bytes into the header of %s" % (name, ff.name, k, cf.name)))
+                    if cnt_new is not None and cnt_old is not None and k == 3:
+                        m2 = ase.set_field(ase.set_field(mut, cnt_new, ase.get_field(data, cnt_new) + 1), cnt_old, min(65535, ase.get_field(data, cnt_old) + 1))
+                        out.append((w.put(m2, "fb"), "%s:%s ends 3 bytes into the header of %s, chunk count + 1" % (name, ff.name, cf.name)))
     for name, data in special_files(rng):
         out.append((w.put(data, "sp"), "special:" + name))
     for desc, data, _ok in sparse_indexed_files(rng, 400 if tier == "quick" else 3000):
@@ -2025,7 +2044,8 @@ LAT16 = [0, 1, 2, 63, 64, 127, 128, 129, 191, 192, 200, 253, 254, 255, 31, 100]
 ALPHA_OPACITY = [  # (backdrop alpha, source alpha, layer opacity, cel opacity)
     (255, 255, 255, 255), (255, 128, 255, 255), (128, 255, 255, 255), (1, 255, 200, 255), (255, 1, 255, 37),
     (77, 200, 128, 128), (0, 255, 255, 255), (255, 0, 255, 255), (255, 255, 0, 255), (200, 100, 255, 0),
-    (254, 254, 254, 254), (2, 2, 1, 255), (128, 127, 129, 2), (0, 0, 255, 255), (0, 128, 77, 200), (255, 255, 1, 1)]
+    (254, 254, 254, 254), (2, 2, 1, 255), (128, 127, 129, 2), (0, 0, 255, 255), (0, 128, 77, 200), (255, 255, 1, 1),
+    (255, 255, 255, 128), (128, 255, 255, 254)]     # opaque pixels on a fully opaque LAYER whose CEL is translucent
 
 
 def blend_image(mode: int, k: int, variant: str, rng: random.Random, size: int = 256):
@@ -2252,6 +2272,9 @@ def blend_check(prop: str, tier: str, seed: int) -> int:
             for j, var in enumerate(variants):
                 k = (0 if (j < 4 and var.startswith("square")) or j == 0 else rng.randrange(len(ALPHA_OPACITY))) if var.split(":")[0] in ("square", "lattice") else j
                 plan.append((m, k + (j // 7) * 3, var))
+            # always: opaque pixels on a fully opaque layer whose cel is translucent (corners 16, 17)
+            plan.append((m, 16, "lattice"))
+            plan.append((m, 17, "lattice"))
         size = 128 if quick else 256
         cases = []
         for (m, k, var) in plan:
@@ -3263,6 +3286,13 @@ def c12_inputs(rng: random.Random, tier: str) -> List[Tuple[str, bytes]]:
             for vv in sorted({cur * 2 + 1, 255, 65535, 1 << 24, (1 << 31) - 1, top - 1, top}):
                 if vv > cur and vv <= top:
                     out.append(("%s:%s@%d:%d->%d" % (name, f.name, f.offset, cur, vv), ase.set_field(data, f, vv)))
+    # a tag whose frame range and repeat count are both large but well inside their ranges (a playback list would have 30 million entries)
+    out.append(("tag 0..29999 repeated 1000 times", ase.serialize(ase.Sprite(width=1, height=1, frames=[ase.Frame(chunks=[
+        ase.TagsChunk(tags=[ase.Tag(name="t", from_=0, to=29999, repeat=1000), ase.Tag(name="u", from_=5, to=65534, repeat=65535, direction=2)])])]))))
+    # a tileset that only links to an external file - which the file does list - and declares 8192 tiles of 64 x 64 (nothing backs them)
+    out.append(("link-only tileset, listed external file, 8192 tiles of 64x64", ase.serialize(ase.Sprite(width=4, height=4, frames=[ase.Frame(chunks=[
+        ase.ExternalFilesChunk(entries=[(1, "tiles.aseprite")]), ase.TilesetChunk(id=0, flags=1, ext=(1, 0), tile_count=8192, tile_w=64, tile_h=64, pixels=b""),
+        ase.LayerChunk(ltype=2, tileset=0)])]))))
     # deflate bombs
     def bomb_cel(w, h, depth):
         bpp = {32: 4, 16: 2, 8: 1}[depth]
@@ -3300,7 +3330,7 @@ def c12_inputs(rng: random.Random, tier: str) -> List[Tuple[str, bytes]]:
         fs = [f for f in ase.mutable_fields(data) if f.kind in ("size", "count", "dim", "length")]
         # systematically: every pair of such fields of ONE chunk (tile count + compressed length, width + height, count + name length, ...)
         groups: Dict[str, list] = {}
-        for f in fs:
+        for f in [f for f in ase.mutable_fields(data) if f.kind in ("size", "count", "dim", "length", "index")]:
             groups.setdefault(f.name.rsplit(".", 1)[0], []).append(f)
         for g, gf in groups.items():
             for ia in range(len(gf)):
